@@ -52,6 +52,8 @@ func coreContracts() map[string]*ZContract {
 		"(*core.Line).Tokenize$bound":      {Ensures: []ZEnsure{{Cons: []ZC{le(zz, zr(1), 0)}}, {Guard: 'L', GI: 0, Cons: []ZC{le(zr(1), zm(0), -1)}}}},
 		"(*core.Line).TokenizeSpace$bound": {Ensures: []ZEnsure{{Cons: []ZC{le(zz, zr(1), 0)}}, {Guard: 'L', GI: 0, Cons: []ZC{le(zr(1), zm(0), -1)}}}},
 		"(*core.Line).TokenizeBlock$bound": {Ensures: []ZEnsure{{Cons: []ZC{le(zz, zr(1), 0)}}, {Guard: 'L', GI: 0, Cons: []ZC{le(zr(1), zm(0), -1)}}}},
+		// the numeric argument handed to the commands is capped (the loops `for i <= vii` are counted in it)
+		"(*core.Iterations).Get": {Ensures: []ZEnsure{{Cons: []ZC{le(zr(0), zz, 1000000), le(zz, zr(0), 1000000)}}}},
 		// strutil helpers take a position inside the line they are given
 		"strutil.AdjustNumberOperatorPos": {Requires: []ZC{le(zz, zp(0), 0), le(zp(0), zl(1), 0)}},
 		"strutil.lineSlice":               {Requires: []ZC{le(zz, zp(1), 0), le(zp(1), zl(0), 0)}},
